@@ -109,7 +109,7 @@ class Path(object):
         if not self.concrete and self.solver.feasible(True) == "unsat":
             raise Infeasible("assumption contradicts path condition")
 
-    def decide(self, c, hint=""):
+    def decide(self, c, hint="", payload=None):
         """concrete truth value of scalar c on this path (forks)"""
         c = tobool(c)
         if isinstance(c, bool):
@@ -119,8 +119,8 @@ class Path(object):
         idx = len(self.decisions)
         fp = show(c.t)[:200]
         if idx < len(self.prefix):
-            taken = self.prefix[idx]
-            self.decisions.append((taken, False, fp))
+            taken = self.prefix[idx][0]
+            self.decisions.append((taken, False, fp, payload))
         else:
             ft = self.solver.feasible(c.t)
             ff = self.solver.feasible(("not", c.t))
@@ -132,11 +132,35 @@ class Path(object):
                 taken, alt = True, False
             else:
                 taken, alt = True, True
-            self.decisions.append((taken, alt, fp))
+            self.decisions.append((taken, alt, fp, payload))
         t = c.t if taken else ("not", c.t)
         self.pc.append(t)
         self.solver.add(t)
         return taken
+
+    def pick_value(self, v, what="value", limit=300):
+        """concrete value of a symbolic integer on this path: a feasible value is taken from a model of the path condition
+        and decided (v == value); the other branch excludes it and picks the next one.  The chosen values are recorded in the
+        decision vector so that re-execution is deterministic."""
+        from .terms import Eq, is_sym, b2i
+        if not is_sym(v):
+            return v
+        v = b2i(v)
+        if self.concrete:
+            raise EngineError("symbolic value in concrete mode")
+        for _ in range(limit):
+            idx = len(self.decisions)
+            if idx < len(self.prefix):
+                val = self.prefix[idx][1]
+                if val is None:
+                    raise EngineError("non-deterministic re-execution: value decision expected")
+            else:
+                val = self.solver.model_value(v.t)
+                if val is None:
+                    raise Infeasible("no value")
+            if self.decide(Eq(v, val), payload=val):
+                return val
+        raise Unsupported("%s has more than %d feasible values on one path" % (what, limit))
 
     def choose(self, n, hint="choice"):
         """nondeterministic choice in range(n) (used for lazy initialisation); encoded as binary decisions on
@@ -195,9 +219,9 @@ def explore(run, max_paths=20000, rlimit=None, on_path=None):
             if outcome is None or outcome[0] != "infeasible":
                 raise EngineError("non-deterministic re-execution: fewer decisions than the prefix")
         for i in range(len(prefix), len(dec)):
-            taken, alt, _fp = dec[i]
+            taken, alt, _fp, payload = dec[i]
             if alt:
-                stack.append([d[0] for d in dec[:i]] + [not taken])
+                stack.append([(d[0], d[3]) for d in dec[:i]] + [(not taken, payload)])
         results.append(path)
         path.outcome = outcome
         if on_path:
